@@ -500,7 +500,7 @@ theorem applyPlan_aligned {I J : Inter} {p : Plan} (hh : planHypB I p = true) (h
         cases hn : p.actions with
         | some n => simp [ho, hn] at hh
         | none =>
-          simp [alignedB, obsRewards_none, obsFeedbacks_none, ho, hn, optObsEq, loggedIndex]
+          simp [alignedB, obsRewards_none, obsFeedbacks_none, ho, optObsEq, loggedIndex]
       | some o =>
         cases hn : p.actions with
         | none => simp [ho, hn] at hh
@@ -534,5 +534,201 @@ theorem applyPlan_aligned {I J : Inter} {p : Plan} (hh : planHypB I p = true) (h
               | some a' =>
                 rw [ha, ha'] at hL
                 simp [hk, logged_index_kept hL hk]
+
+
+/-! ### composition -/
+
+theorem optObsEq_refl_of_left {a b : Option (List (Except Err Rat))} (h : optObsEq a b = true) : optObsEq a a = true := by
+  cases a <;> cases b <;> simp_all [optObsEq]
+  obtain ⟨rs, h1, _⟩ := (obsEq_iff _ _).mp h
+  exact (obsEq_iff _ _).mpr ⟨rs, h1, h1⟩
+
+theorem alignedB_trans {I J K : Inter} (h1 : alignedB I J = true) (h2 : alignedB J K = true) : alignedB I K = true := by
+  simp only [alignedB, Bool.and_eq_true, beq_iff_eq] at h1 h2 ⊢
+  obtain ⟨⟨⟨⟨r1, f1⟩, l1⟩, w1⟩, p1⟩ := h1
+  obtain ⟨⟨⟨⟨r2, f2⟩, l2⟩, w2⟩, p2⟩ := h2
+  refine ⟨⟨⟨⟨optObsEq_trans r1 r2, optObsEq_trans f1 f2⟩, ?_⟩, w1.trans w2⟩, p1.trans p2⟩
+  cases hI : loggedIndex I with
+  | none => simp
+  | some x =>
+    cases x with
+    | none => simp
+    | some k =>
+      simp only [hI] at l1
+      have hJ : loggedIndex J = some (some k) := by simpa using l1
+      simp only [hJ] at l2
+      simpa using l2
+
+theorem optObsEq_refl_of_right {a b : Option (List (Except Err Rat))} (h : optObsEq a b = true) : optObsEq b b = true := by
+  cases a <;> cases b <;> simp_all [optObsEq]
+  obtain ⟨rs, _, h2⟩ := (obsEq_iff _ _).mp h
+  exact (obsEq_iff _ _).mpr ⟨rs, h2, h2⟩
+
+theorem alignedB_refl_right {I J : Inter} (h : alignedB I J = true) : alignedB J J = true := by
+  simp only [alignedB, Bool.and_eq_true, beq_iff_eq] at h ⊢
+  obtain ⟨⟨⟨⟨r1, f1⟩, _⟩, _⟩, _⟩ := h
+  refine ⟨⟨⟨⟨optObsEq_refl_of_right r1, optObsEq_refl_of_right f1⟩, ?_⟩, trivial⟩, trivial⟩
+  cases hJ : loggedIndex J with
+  | none => simp
+  | some x => cases x <;> simp
+
+theorem alignedStreamB_refl_right : ∀ {s t : List Inter}, alignedStreamB s t = true → alignedStreamB t t = true := by
+  intro s
+  induction s with
+  | nil =>
+    intro t h
+    cases t with
+    | nil => rfl
+    | cons _ _ => simp [alignedStreamB] at h
+  | cons i is ih =>
+    intro t h
+    cases t with
+    | nil => simp [alignedStreamB] at h
+    | cons j js =>
+      simp only [alignedStreamB, Bool.and_eq_true] at h ⊢
+      exact ⟨alignedB_refl_right h.1, ih h.2⟩
+
+theorem alignedStreamB_trans : ∀ {s t u : List Inter}, alignedStreamB s t = true → alignedStreamB t u = true →
+    alignedStreamB s u = true := by
+  intro s
+  induction s with
+  | nil =>
+    intro t u h1 h2
+    cases t with
+    | nil => exact h2
+    | cons _ _ => simp [alignedStreamB] at h1
+  | cons i is ih =>
+    intro t u h1 h2
+    cases t with
+    | nil => simp [alignedStreamB] at h1
+    | cons j js =>
+      cases u with
+      | nil => simp [alignedStreamB] at h2
+      | cons k ks =>
+        simp only [alignedStreamB, Bool.and_eq_true] at h1 h2 ⊢
+        exact ⟨alignedB_trans h1.1 h2.1, ih h1.2 h2.2⟩
+
+theorem applyPlans_aligned : ∀ {s : List Inter} {ps : List Plan} {s' : List Inter},
+    plansHypB s ps = true → applyPlans s ps = .ok s' → alignedStreamB s s' = true := by
+  intro s
+  induction s with
+  | nil =>
+    intro ps s' hh h
+    cases ps with
+    | nil => simp [applyPlans] at h; subst h; rfl
+    | cons _ _ => simp [applyPlans] at h
+  | cons i is ih =>
+    intro ps s' hh h
+    cases ps with
+    | nil => simp [applyPlans] at h
+    | cons p ps =>
+      simp only [plansHypB, Bool.and_eq_true] at hh
+      simp only [applyPlans] at h
+      cases hj : applyPlan i p with
+      | error e => simp [hj] at h
+      | ok j =>
+        simp only [hj] at h
+        cases hjs : applyPlans is ps with
+        | error e => simp [hjs] at h
+        | ok js =>
+          simp only [hjs] at h
+          cases h
+          simp only [alignedStreamB, Bool.and_eq_true]
+          exact ⟨applyPlan_aligned hh.1 hj, ih hh.2 hjs⟩
+
+/-- the stream is aligned with itself as soon as its own reward functions evaluate on its own actions -/
+theorem runPrims_aligned (cfg : Cfg) : ∀ (sts : List Step) {s s' : List Inter},
+    primsHypB cfg sts s = true → runPrims cfg sts s = .ok s' → alignedStreamB s s = true → alignedStreamB s s' = true := by
+  intro sts
+  induction sts with
+  | nil =>
+    intro s s' _ h hs
+    simp [runPrims] at h
+    subst h
+    exact hs
+  | cons st rest ih =>
+    intro s s' hh h hs
+    simp only [runPrims, runPrim] at h
+    simp only [primsHypB] at hh
+    cases hp : plansOf cfg st s with
+    | error e => simp [hp] at h
+    | ok ps =>
+      simp only [hp] at h hh
+      cases ha : applyPlans s ps with
+      | error e => simp [ha] at h
+      | ok s1 =>
+        simp only [ha, Bool.and_eq_true] at h hh
+        have h1 := applyPlans_aligned hh.1 ha
+        have h11 : alignedStreamB s1 s1 = true := alignedStreamB_refl_right h1
+        exact alignedStreamB_trans h1 (ih hh.2 h h11)
+
+
+theorem runStep_aligned (cfg : Cfg) (st : Step) {S S' : State}
+    (hh : (match st with
+           | .batch _ => true
+           | .unbatch => true
+           | _ => primsHypB cfg (expandStep st) S.stream) = true)
+    (h : runStep cfg st S = .ok S') (hs : alignedStreamB S.stream S.stream = true) :
+    alignedStreamB S.stream S'.stream = true := by
+  have prim : ∀ (sts : List Step), primsHypB cfg sts S.stream = true →
+      (match runPrims cfg sts S.stream with
+       | .error e => Except.error e
+       | .ok s' => Except.ok ({ stream := s', sizes := match S.sizes with
+                                  | some (k :: _) => some (chunkSizes k s'.length s'.length)
+                                  | other => other } : State)) = .ok S' →
+      alignedStreamB S.stream S'.stream = true := by
+    intro sts hp hr
+    cases hrun : runPrims cfg sts S.stream with
+    | error e => simp [hrun] at hr
+    | ok s' =>
+      simp only [hrun] at hr
+      cases hr
+      exact runPrims_aligned cfg sts hp hrun hs
+  cases st with
+  | batch n =>
+    simp only [runStep] at h
+    cases n with
+    | none => cases h; exact hs
+    | some k =>
+      cases k with
+      | zero => cases h; exact hs
+      | succ k =>
+        simp only at h
+        cases hsz : S.sizes with
+        | some _ => simp [hsz] at h
+        | none =>
+          simp only [hsz] at h
+          split at h <;> (cases h; exact hs)
+  | unbatch => simp only [runStep] at h; cases h; exact hs
+  | repr cc ca => exact prim _ hh h
+  | flatten => exact prim _ hh h
+  | sparsify c a => exact prim _ hh h
+  | densify n m c a => exact prim _ hh h
+  | noise c a o => exact prim _ hh h
+  | harden => exact prim _ hh h
+  | wrapSeqs => exact prim _ hh h
+  | finalize => exact prim _ hh h
+
+/-- alignment is preserved along a whole chain -/
+theorem runChain_aligned (cfg : Cfg) : ∀ (chain : List Step) {S S' : State},
+    chainHypB cfg chain S = true → runChain cfg chain S = .ok S' → alignedStreamB S.stream S.stream = true →
+    alignedStreamB S.stream S'.stream = true := by
+  intro chain
+  induction chain with
+  | nil =>
+    intro S S' _ h hs
+    simp [runChain] at h
+    subst h
+    exact hs
+  | cons st rest ih =>
+    intro S S' hh h hs
+    simp only [runChain] at h
+    simp only [chainHypB, Bool.and_eq_true] at hh
+    cases hst : runStep cfg st S with
+    | error e => simp [hst] at h
+    | ok S1 =>
+      simp only [hst] at h hh
+      have h1 := runStep_aligned cfg st hh.1 hst hs
+      exact alignedStreamB_trans h1 (ih hh.2 h (alignedStreamB_refl_right h1))
 
 end Coba.C10
